@@ -15,7 +15,7 @@ CLAIMED = {
  'C18': dict(cat='model_checking', ref='6/C18', text='Poll.tla (registry, buffers, connection limit, usurpation, id preference, notify rule, double-close = crash) checked exhaustively; TLC-generated event sequences are replayed on the real connections registry and PollWorker.Process, directly and through the real PollWorker.Start loop (control events queued while the worker is busy exercise the prioritised select); registry, buffer lengths, Done results and panics judged by TLC.', tech=SIDE, engine='tlc+pollx'),
  'C19': dict(cat='model_checking', ref='6/C19', text='Route.tla: routing-tag classes x target tables x stored receivers x task kinds (149 vectors) enumerated by TLC and played on the real router worker and the real sender worker with recording plugins; matched/receiver, plugin, data, message type, body and links judged by TLC.', tech=SIDE, engine='tlc+routex'),
  'C13': dict(cat='fault_enumeration', ref='6/C13', text='Front.tla structures the input space as endpoint x field x class of hostile value followed by the lifecycle an accepted entity goes through (time-out, routing, dispatch, firing, conversion), a kill -9, a restart and more background cycles; TLC enumerates the ~600 scenarios; each is played against its own real `resonate serve` process over real HTTP/gRPC by procx; TLC judges survival, liveness probes, reply classes and that refused requests leave no trace in the database file.', tech='TLA+ scenario table (Front.tla) enumerated by TLC, played on the real server binary (procx), observations judged by TLC (FrontTrace.tla)', engine='tlc+procx'),
- 'C14': dict(cat='model_checking', ref='6/C14', text='Search definitions (pattern, state mask, tags, newest first, page size, cursor iff full) checked exhaustively by TLC: following cursors returns exactly the matching set once each; real searches go through the real API helper and real JWT cursors, each page must be the level-A result on a commit-point state, traversals are checked for duplicates/completeness under concurrent mutations, forged cursors must be rejected.', tech=TRACE),
+ 'C14': dict(cat='model_checking', ref='6/C14', text='Search definitions (pattern, state mask, tags, newest first, page size, cursor iff full) checked exhaustively by TLC: following cursors returns exactly the matching set once each; real searches go through the real API helper and real JWT cursors, each page must be the level-A result on a commit-point state, traversals are checked for duplicates/completeness under concurrent mutations, forged cursors must be rejected.', tech=TRACEB),
  'C01': dict(cat='model_checking', ref='6/C01', text='Write-once/immutability as TLA+ action properties: exhaustive on the bounded level-A model; every recorded commit (incl. each transaction inside a batch), reply and notification of seeded racing workloads with faults and crashes is checked by TLC against them.', tech=TRACEB),
  'C02': dict(cat='model_checking', ref='6/C02', text='Linearizability by observed commit points: every state change of the real store must be the level-A effect of the owning request at its decision tick (or a no-op), every reply must be the level-A result at one of the request\'s commit points; whole bodies compared, TLC is the oracle.', tech=TRACEB),
  'C03': dict(cat='model_checking', ref='6/C03', text='Declarative status tables of the statement checked by TLC against the operational spec for every reachable state and argument combination; the real create/complete coroutines are then validated against the spec on recorded traces incl. lost replies and racing retries.', tech=TRACEB),
